@@ -88,3 +88,49 @@ package tensor
 //@   ensures [flat_value] err == nil && old(flatOK(asptr("tensor.Dense", a)) && flatOK(asptr("tensor.Dense", x)) && flatOK(asptr("tensor.Dense", y)) && sameOrder(asptr("tensor.Dense", a), asptr("tensor.Dense", x)) && sameOrder(asptr("tensor.Dense", a), asptr("tensor.Dense", y))) ==> (forall i :: 0 <= i && i < len(tview("float64", asptr("tensor.Dense", a))) ==> tview("float64", asptr("tensor.Dense", y))[i] == op_Add(old(tview("float64", asptr("tensor.Dense", y))[i]), op_Mul(old(tview("float64", asptr("tensor.Dense", a))[i]), old(tview("float64", asptr("tensor.Dense", x))[i]))))
 //@   ensures [operands] unchanged(tview("float64", asptr("tensor.Dense", a))) && unchanged(tview("float64", asptr("tensor.Dense", x)))
 //@   assigns whole(tview("float64", asptr("tensor.Dense", y)))
+
+
+// the float32-specialised engine is a textual twin of the float64 one: same contract
+//@ func tensor.Float32Engine.FMA
+//@   props C20 C07
+//@   config devirt tensor.Tensor=*tensor.Dense
+//@   requires [dyn] typeis(a, "*tensor.Dense") && typeis(x, "*tensor.Dense") && typeis(y, "*tensor.Dense")
+//@   requires [distinct] asptr("tensor.Dense", a) != asptr("tensor.Dense", y) && asptr("tensor.Dense", x) != asptr("tensor.Dense", y)
+//@   requires [storage] asptr("tensor.Dense", y).Raw.arr != asptr("tensor.Dense", a).Raw.arr && asptr("tensor.Dense", y).Raw.arr != asptr("tensor.Dense", x).Raw.arr
+//@   requires [lens] len(asptr("tensor.Dense", x).Raw) >= len(asptr("tensor.Dense", a).Raw) && len(asptr("tensor.Dense", y).Raw) >= len(asptr("tensor.Dense", a).Raw)
+//@   ensures [returns_y] err == nil ==> retVal == y
+//@   ensures [flat_value] err == nil && old(flatOK(asptr("tensor.Dense", a)) && flatOK(asptr("tensor.Dense", x)) && flatOK(asptr("tensor.Dense", y)) && sameOrder(asptr("tensor.Dense", a), asptr("tensor.Dense", x)) && sameOrder(asptr("tensor.Dense", a), asptr("tensor.Dense", y))) ==> (forall i :: 0 <= i && i < len(tview("float32", asptr("tensor.Dense", a))) ==> tview("float32", asptr("tensor.Dense", y))[i] == op_Add(old(tview("float32", asptr("tensor.Dense", y))[i]), op_Mul(old(tview("float32", asptr("tensor.Dense", a))[i]), old(tview("float32", asptr("tensor.Dense", x))[i]))))
+//@   ensures [operands] unchanged(tview("float32", asptr("tensor.Dense", a))) && unchanged(tview("float32", asptr("tensor.Dense", x)))
+//@   assigns whole(tview("float32", asptr("tensor.Dense", y)))
+
+// FMAScalar: y += a*x with a scalar x, exactly once: by the flat kernel when both tensors are flat and of one order, by
+// one run of the iterator kernel otherwise (the result is then the iterator kernel's summary of the old contents, for
+// the iterators of a and y)
+//@ func tensor.Float64Engine.FMAScalar
+//@   props C20 C07
+//@   config devirt tensor.Tensor=*tensor.Dense
+//@   requires [dyn] typeis(a, "*tensor.Dense") && typeis(y, "*tensor.Dense") && a.val != 0 && y.val != 0
+//@   requires [distinct] asptr("tensor.Dense", a) != asptr("tensor.Dense", y)
+//@   requires [storage] asptr("tensor.Dense", y).Raw.arr != asptr("tensor.Dense", a).Raw.arr
+//@   requires [lens] !needsIter(asptr("tensor.Dense", a)) && !needsIter(asptr("tensor.Dense", y)) ==> len(asptr("tensor.Dense", a).Raw) == len(asptr("tensor.Dense", y).Raw)
+//@   ensures [returns_y] err == nil ==> retVal == y
+//@   ensures [flat_value] err == nil && old(!needsIter(asptr("tensor.Dense", a)) && !needsIter(asptr("tensor.Dense", y))) ==> (forall i :: 0 <= i && i < len(tview("float64", asptr("tensor.Dense", a))) ==> tview("float64", asptr("tensor.Dense", y))[i] == op_Add(old(tview("float64", asptr("tensor.Dense", y))[i]), op_Mul(old(tview("float64", asptr("tensor.Dense", a))[i]), unbox("float64", x))))
+//@   ensures [iter_value] err == nil && old(needsIter(asptr("tensor.Dense", a)) || needsIter(asptr("tensor.Dense", y))) ==> (exists ia, ii :: summ_arith_iterincrvs_Mul(contents(tview("float64", asptr("tensor.Dense", y))), old(contents(tview("float64", asptr("tensor.Dense", y)))), tview("float64", asptr("tensor.Dense", y)).off, old(contents(tview("float64", asptr("tensor.Dense", a)))), tview("float64", asptr("tensor.Dense", a)).off, unbox("float64", x), ia, 0, ii, 0))
+//@   ensures [operand] unchanged(tview("float64", asptr("tensor.Dense", a)))
+//@   assigns whole(tview("float64", asptr("tensor.Dense", y)))
+
+// FMAScalar: y += a*x with a scalar x, exactly once: by the flat kernel when both tensors are flat and of one order, by
+// one run of the iterator kernel otherwise (the result is then the iterator kernel's summary of the old contents, for
+// the iterators of a and y)
+//@ func tensor.Float32Engine.FMAScalar
+//@   props C20 C07
+//@   config devirt tensor.Tensor=*tensor.Dense
+//@   requires [dyn] typeis(a, "*tensor.Dense") && typeis(y, "*tensor.Dense") && a.val != 0 && y.val != 0
+//@   requires [distinct] asptr("tensor.Dense", a) != asptr("tensor.Dense", y)
+//@   requires [storage] asptr("tensor.Dense", y).Raw.arr != asptr("tensor.Dense", a).Raw.arr
+//@   requires [lens] !needsIter(asptr("tensor.Dense", a)) && !needsIter(asptr("tensor.Dense", y)) ==> len(asptr("tensor.Dense", a).Raw) == len(asptr("tensor.Dense", y).Raw)
+//@   ensures [returns_y] err == nil ==> retVal == y
+//@   ensures [flat_value] err == nil && old(!needsIter(asptr("tensor.Dense", a)) && !needsIter(asptr("tensor.Dense", y))) ==> (forall i :: 0 <= i && i < len(tview("float32", asptr("tensor.Dense", a))) ==> tview("float32", asptr("tensor.Dense", y))[i] == op_Add(old(tview("float32", asptr("tensor.Dense", y))[i]), op_Mul(old(tview("float32", asptr("tensor.Dense", a))[i]), unbox("float32", x))))
+//@   ensures [iter_value] err == nil && old(needsIter(asptr("tensor.Dense", a)) || needsIter(asptr("tensor.Dense", y))) ==> (exists ia, ii :: summ_arith_iterincrvs_Mul(contents(tview("float32", asptr("tensor.Dense", y))), old(contents(tview("float32", asptr("tensor.Dense", y)))), tview("float32", asptr("tensor.Dense", y)).off, old(contents(tview("float32", asptr("tensor.Dense", a)))), tview("float32", asptr("tensor.Dense", a)).off, unbox("float32", x), ia, 0, ii, 0))
+//@   ensures [operand] unchanged(tview("float32", asptr("tensor.Dense", a)))
+//@   assigns whole(tview("float32", asptr("tensor.Dense", y)))
